@@ -198,7 +198,7 @@ def declare3(S: Spec):
            " and all(state(o) in (OperatorState.COMPLETED, OperatorState.FAILED) for o in r.ops)"
            " and all(implies(state(r.ops[j]) == OperatorState.FAILED, state(r.ops[j + 1]) == OperatorState.FAILED) for j in range(0, len(r.ops) - 1)))")
     RES = "len(results) == len(to_remove)"
-    RES2 = ("all(results[j].ops is to_remove[j].assignment.ops and results[j].error == to_remove[j].error"
+    RES2 = ("all(results[j].ops is to_remove[j].assignment.ops"
             " and results[j].container_id == to_remove[j].container_id for j in range(0, len(results)))")
     RES3 = "all(ResultShape(r) for r in results)"
     CTX = ["GI1()", ORIGIN, UNTOUCHED, "Container.next_container_num >= old(Container.next_container_num)", "ListsOK(self)", "LiveDisjoint(self)", "IdsOK(seq(self.active_containers))", "self.ticks_per_second >= 1"]
@@ -224,7 +224,7 @@ def declare3(S: Spec):
                   ("every-assignment-started", "C09| " + STARTED.format(seq="seq(assignments)", res="result")),
                   ("result-shape", "C09| all(ResultShape(r) for r in result)"),
                   ("one-result-per-ended-container", "C09| all(c in self.active_containers or c in self.suspending_containers or c in self.suspended_containers"
-                                                     " or any(r.container_id == c.container_id and r.error == c.error and r.ops is c.assignment.ops for r in result)"
+                                                     " or any(r.container_id == c.container_id and r.ops is c.assignment.ops for r in result)"
                                                      " for c in old(seq(self.active_containers)))"),
                   ("id-counter-monotone", "Container.next_container_num >= old(Container.next_container_num)"),
                   ("pool-invariant", "PoolInv(self)"),
